@@ -442,7 +442,7 @@ def sym_pow(base, e):
 
 
 def s_max(*args):
-    if len(args) == 1:
+    if len(args) == 1 and isinstance(args[0], (list, tuple)):
         args = tuple(args[0])
     acc = args[0]
     for a in args[1:]:
@@ -458,7 +458,7 @@ def s_max(*args):
 
 
 def s_min(*args):
-    if len(args) == 1:
+    if len(args) == 1 and isinstance(args[0], (list, tuple)):
         args = tuple(args[0])
     acc = args[0]
     for a in args[1:]:
